@@ -21,7 +21,6 @@ import (
 	"github.com/sourcenetwork/defradb/internal/datastore"
 	"github.com/sourcenetwork/defradb/internal/db/id"
 	"github.com/sourcenetwork/defradb/internal/keys"
-	"github.com/sourcenetwork/defradb/internal/planner/filter"
 	"github.com/sourcenetwork/defradb/internal/planner/mapper"
 )
 
@@ -68,15 +67,10 @@ func newIndexFetcher(
 		ordering:   ordering,
 	}
 
-	fieldsToCopy := make([]mapper.Field, 0, len(indexDesc.Fields))
-	for _, field := range indexDesc.Fields {
-		typeIndex := docMapper.FirstIndexOfName(field.Name)
-		indexField := mapper.Field{Index: typeIndex, Name: field.Name}
-		fieldsToCopy = append(fieldsToCopy, indexField)
-	}
-	for i := range fieldsToCopy {
-		f.indexFilter = filter.Merge(f.indexFilter, filter.CopyField(docFilter, fieldsToCopy[i]))
-	}
+	// The conditions for the index are searched in the document filter itself. Copying the conditions of
+	// each indexed field out of it and merging the copies turns an _or over different fields into an
+	// _and of single branch _or's, i.e. into a conjunction, and documents matching one branch are lost.
+	f.indexFilter = docFilter
 
 	for _, indexedField := range f.indexDesc.Fields {
 		field, ok := f.col.Definition().GetFieldByName(indexedField.Name)
